@@ -235,6 +235,30 @@ class Witness(object):
 
         # 4. set(backends) in WorkflowGraph.active_backends: observed directly through its return value (see dump)
 
+        # 6. the expanded references of a component when two of its references expand to the same string (the relative
+        #    and the absolute spelling of one producer, or a literal repeat): the set a de-duplication would go through
+        import experiment.model.frontends.flowir as flowir_mod
+        R = flowir_mod.FlowIR
+        orig_ecr = R.__dict__['expand_component_references'].__func__
+
+        def expand_component_references(cls, references, stage_context, known_components,
+                                        application_dependencies, top_level_folders):
+            try:
+                if references:
+                    folders = (list(top_level_folders or [])
+                               + [cls.application_dependency_to_name(x) for x in (application_dependencies or [])]
+                               + cls.SpecialFolders)
+                    expanded = [cls.expand_potential_component_reference(r, stage_context, known_components, folders, False)
+                                for r in references]
+                    if len(set(expanded)) != len(expanded):
+                        me.rec('flowir.expanded_references', list(set(expanded)), {'op': 'set', 'a': expanded})
+            except Exception:
+                pass
+            return orig_ecr(cls, references, stage_context, known_components, application_dependencies, top_level_folders)
+
+        R.expand_component_references = classmethod(expand_component_references)
+        self.undo.append(lambda: setattr(R, 'expand_component_references', classmethod(orig_ecr)))
+
         # 5. the names of the formats ExperimentConfigurationFactory.get_config_parser walks through, for directories
         #    that are readable in more than one format: the order in which a SET of the (lower-cased) priority names
         #    iterates in this process, projected on the formats that are present (what any set-typed traversal of the
